@@ -349,3 +349,132 @@ Proof.
   specialize (IH (w :: kr) K He Hn1 Hn2).
   cbn [rev] in IH. rewrite <- app_assoc in IH. exact IH.
 Qed.
+
+(* ================================================================ 3. the path, branch by branch of uriAddBaseUri *)
+Lemma fix_pct_is_nil s : is_nil (fix_pct s) = is_nil s.
+Proof.
+  destruct s as [|c [|x [|y r]]]; try reflexivity.
+  cbn [fix_pct]. destruct (c =? 37); [|reflexivity]. destruct (is_unreserved_code _); reflexivity.
+Qed.
+
+Lemma srel_fix s : pct_wf s = true -> no_pct_dot_seg s = true -> srel (fix_pct s) s.
+Proof.
+  intros Hw Hn. unfold no_pct_dot_seg in Hn. apply andb_prop in Hn. destruct Hn as [H1 H2].
+  apply eqb_prop in H1. apply eqb_prop in H2.
+  split; [apply fix_pct_idem; exact Hw|]. split; [exact H1|]. split; [exact H2|apply fix_pct_is_nil].
+Qed.
+
+Lemma srel_fix_list S : forallb pct_wf S = true -> forallb no_pct_dot_seg S = true ->
+  Forall2 srel (map fix_pct S) S.
+Proof.
+  induction S as [|s r IH]; intros Hw Hn; [constructor|].
+  cbn [forallb] in Hw, Hn. apply andb_prop in Hw. apply andb_prop in Hn.
+  destruct Hw as [Hw1 Hw2]. destruct Hn as [Hn1 Hn2].
+  cbn [map]. constructor; [apply srel_fix; assumption|apply IH; assumption].
+Qed.
+
+Lemma nso_abs h a S : norm_segs_of false h a S = fixtrail_p h (rds_p h a (map fix_pct S)).
+Proof. reflexivity. Qed.
+
+Lemma nso_rel S : norm_segs_of true false false S
+  = fixtrail_p false (match map fix_pct S with [] => [] | _ => rds_walk true false false [] (map fix_pct S) end).
+Proof. reflexivity. Qed.
+
+Lemma nso_ext rel h a S1 S2 : map fix_pct S1 = map fix_pct S2 -> norm_segs_of rel h a S1 = norm_segs_of rel h a S2.
+Proof. intros E. unfold norm_segs_of. rewrite E. reflexivity. Qed.
+
+(* uriAddBaseUri puts an empty segment into an empty path that follows an authority *)
+Definition under_host (hb : bool) (X : list text) : list text :=
+  if hb then match X with [] => [[]] | _ => X end else X.
+
+Lemma under_host_sim hb X Y : Forall2 srel X Y -> Forall2 srel (under_host hb X) (under_host hb Y).
+Proof. intros H. unfold under_host. destruct hb; [|exact H]. destruct H; f2. Qed.
+
+Section Branches.
+  Variable S : list text.
+  Hypothesis (Hwf : forallb pct_wf S = true) (Hnpd : forallb no_pct_dot_seg S = true).
+
+  (* the reference keeps its scheme *)
+  Lemma path_keeps h a :
+    map fix_pct (fixtrail_p h (fixamb_p h a (rds_p h a (norm_segs_of false h a S))))
+    = map fix_pct (fixtrail_p h (fixamb_p h a (rds_p h a S))).
+  Proof.
+    pose proof (srel_fix_list S Hwf Hnpd) as Hrel.
+    rewrite nso_abs.
+    rewrite rds_p_fixed by (apply fixtrail_nodots; apply rds_p_nodots).
+    rewrite fixtrail_fixamb_fixtrail.
+    apply srel_map. apply fixtrail_sim. apply fixamb_sim. apply rds_p_sim. exact Hrel.
+  Qed.
+
+  (* the reference has an authority *)
+  Lemma path_relhost h a :
+    map fix_pct (fixtrail_p h (rds_p h a (norm_segs_of false h a S)))
+    = map fix_pct (fixtrail_p h (rds_p h a S)).
+  Proof.
+    pose proof (srel_fix_list S Hwf Hnpd) as Hrel.
+    rewrite nso_abs.
+    rewrite rds_p_fixed by (apply fixtrail_nodots; apply rds_p_nodots).
+    rewrite fixtrail_idem.
+    apply srel_map. apply fixtrail_sim. apply rds_p_sim. exact Hrel.
+  Qed.
+
+  (* the reference has an absolute path *)
+  Lemma path_abs hb :
+    map fix_pct (fixtrail_p hb (fixamb_p hb (negb hb) (rds_p hb (negb hb)
+                   (under_host hb (norm_segs_of false false true S)))))
+    = map fix_pct (fixtrail_p hb (fixamb_p hb (negb hb) (rds_p hb (negb hb) (under_host hb S)))).
+  Proof.
+    pose proof (srel_fix_list S Hwf Hnpd) as Hrel.
+    destruct hb; cbn [negb].
+    - (* under the base's authority: the flags differ from those normalization used *)
+      transitivity (map fix_pct (fixtrail_p true (fixamb_p true false (rds_p true false (under_host true (map fix_pct S)))))).
+      2:{ apply srel_map. apply fixtrail_sim. apply fixamb_sim. apply rds_p_sim. apply under_host_sim. exact Hrel. }
+      f_equal. f_equal. f_equal.
+      rewrite nso_abs. clear Hrel. unfold under_host.
+      destruct (map fix_pct S) as [|s0 r0]; [reflexivity|].
+      change (rds_p false true (s0 :: r0)) with (rds_walk false false true [] (s0 :: r0)).
+      change (rds_p true false (s0 :: r0)) with (rds_walk false true false [] (s0 :: r0)).
+      set (X := rds_walk false false true [] (s0 :: r0)).
+      set (Y := rds_walk false true false [] (s0 :: r0)).
+      assert (Y <> []) as HY by (apply walk_nonempty_host; discriminate).
+      assert (forallb nodot X = true) as HX by apply rds_walk_nodots.
+      destruct (walk_flags false true true false (s0 :: r0) []) as [E|[[E1|E1] [E2|E2]]]; fold X Y in E || fold X Y in E1, E2.
+      + rewrite <- E in *. unfold fixtrail_p. cbn [negb].
+        destruct X as [|[|c x] [|y r]]; try congruence; try reflexivity;
+          (rewrite rds_p_fixed by exact HX; reflexivity).
+      + congruence.
+      + rewrite E1, E2. reflexivity.
+      + congruence.
+      + rewrite E1, E2. reflexivity.
+    - exact (path_keeps false true).
+  Qed.
+
+  (* the relative-path reference: merged with the base path *)
+  Lemma path_merge hb ab P : (hb = true -> ab = false) -> S <> [] ->
+    norm_segs_of true false false S <> [] -> eats_dot [] (map fix_pct S) = false ->
+    map fix_pct (fixtrail_p hb (fixamb_p hb ab (rds_p hb ab (P ++ norm_segs_of true false false S))))
+    = map fix_pct (fixtrail_p hb (fixamb_p hb ab (rds_p hb ab (P ++ S)))).
+  Proof.
+    intros Hha HS HN He.
+    pose proof (srel_fix_list S Hwf Hnpd) as Hrel.
+    transitivity (map fix_pct (fixtrail_p hb (fixamb_p hb ab (rds_p hb ab (P ++ map fix_pct S))))).
+    2:{ apply srel_map. apply fixtrail_sim. apply fixamb_sim. apply rds_p_sim.
+        apply Forall2_app; [apply Forall2_refl; apply srel_refl|exact Hrel]. }
+    f_equal. apply triv_eq_final. clear Hrel.
+    rewrite nso_rel in HN |- *.
+    assert (map fix_pct S <> []) as HF by (destruct S; [congruence|discriminate]).
+    destruct (map fix_pct S) as [|s0 r0]; [congruence|].
+    set (X := rds_walk true false false [] (s0 :: r0)) in *.
+    assert (X <> [] /\ X <> [[]]) as [HX1 HX2].
+    { split; intros E; rewrite E in HN; apply HN; reflexivity. }
+    assert (forall Z, Z <> [[]] -> fixtrail_p false Z = Z) as EX.
+    { intros Z HZ. unfold fixtrail_p. cbn [negb]. destruct Z as [|[|c x] [|y r]]; try reflexivity. congruence. }
+    rewrite (EX X HX2).
+    assert (forall Z, Z <> [] -> rds_p hb ab (P ++ Z) = rds_walk false hb ab (absorb [] P) Z) as Hp.
+    { intros Z HZ. unfold rds_p. destruct (P ++ Z) eqn:E.
+      - apply app_eq_nil in E. destruct E; congruence.
+      - rewrite <- E. apply walk_app. exact HZ. }
+    rewrite (Hp X HX1), (Hp (s0 :: r0)) by discriminate.
+    exact (rel_then_abs hb ab Hha (s0 :: r0) [] (absorb [] P) He HX1 HX2).
+  Qed.
+End Branches.
